@@ -559,15 +559,19 @@ Proof. exact Proofs.C09MultiWitness.glob_renamed_refuted. Qed.
 Print Assumptions C09_multi_glob_renamed_refuted.
 
 (* Kotlin on fix 23's former witness: without a prefix reference, import and definition agree (exact text); under the
-   prefix KP the reference is KPA2Renamed - what a.kt declares - while the import line names the unprefixed A2Renamed
-   (kotlin.rs:301 write_imports) *)
+   prefix KP the reference is KPA2Renamed - what a.kt declares - and the import line names KPA2Renamed as well (exact text;
+   before fix 26 of /repo, kotlin.rs:301 write_imports, it named the unprefixed A2Renamed, which a.kt does not declare) *)
 Theorem C09_multi_renamed_import_kotlin_pin :
   Proofs.C09MultiWitness.wm_kt_text [] Proofs.C14Witness.ws_renamed Proofs.C14Witness.MY =
     Some (lit "package p.my_crate" ++ [10%N; 10%N] ++ lit "import kotlinx.serialization.Serializable" ++ [10%N] ++
           lit "import kotlinx.serialization.SerialName" ++ [10%N; 10%N] ++ lit "import p.a.A2Renamed" ++ [10%N; 10%N] ++
           lit "@Serializable" ++ [10%N] ++ lit "data class B1 (" ++ [10%N; 9%N] ++ lit "val f: A2Renamed" ++ [10%N] ++ lit ")" ++ [10%N; 10%N])%list /\
+  Proofs.C09MultiWitness.wm_kt_text (lit "KP") Proofs.C14Witness.ws_renamed Proofs.C14Witness.MY =
+    Some (lit "package p.my_crate" ++ [10%N; 10%N] ++ lit "import kotlinx.serialization.Serializable" ++ [10%N] ++
+          lit "import kotlinx.serialization.SerialName" ++ [10%N; 10%N] ++ lit "import p.a.KPA2Renamed" ++ [10%N; 10%N] ++
+          lit "@Serializable" ++ [10%N] ++ lit "data class KPB1 (" ++ [10%N; 9%N] ++ lit "val f: KPA2Renamed" ++ [10%N] ++ lit ")" ++ [10%N; 10%N])%list /\
   match Proofs.C09MultiWitness.wm_kt_text (lit "KP") Proofs.C14Witness.ws_renamed Proofs.C14Witness.MY with
-  | Some t => contains_sub (lit "val f: KPA2Renamed") t && contains_sub (lit "import p.a.A2Renamed") t
+  | Some t => negb (contains_sub (lit "import p.a.A2Renamed") t)
   | None => false
   end = true /\
   match Proofs.C09MultiWitness.wm_kt_text (lit "KP") Proofs.C14Witness.ws_renamed (lit "a") with
